@@ -47,7 +47,7 @@ whether a statement is written in place or moved into a helper.
 import re
 
 from rkstatic.x_symnf import (SymExec, Unsupported, unver, versions_in, show, last, strip_targs, contains,
-                              find_all, mk_comm)
+                              find_all, mk_comm, mk_eq)
 
 LEVEL = 'other'
 EXPLANATION = (
@@ -237,6 +237,8 @@ class Model:
         pointer stays valid for as long as the copy lives)?"""
         if r['type'] in seen:
             return False
+        if getattr(self, 'copy_sharing', {}).get(r['type']) is False:
+            return False        # its user-provided copy operations give the copy a block of its own
         for name, kind, inner in self.owners(r):
             if kind in ('vec', 'up_alloc', 'sp_other'):
                 return False
@@ -321,6 +323,44 @@ class WrapperAnalysis:
         if v[0] == 'field':
             return ('copyof', v)
         return ('unknown', v)
+
+    # ---- new[] / delete[] pairing of an allocation handed to a smart-pointer owner
+    def check_deleter(self, r, member, args, node, findings):
+        """args: the (unversioned) arguments with which the smart pointer member takes over a block (constructor or reset arguments).
+        A block obtained with `new T[n]` must be released with delete[]: the owner is a shared_ptr<T[]> / unique_ptr<T[]>, or the
+        block is handed over together with std::default_delete<T[]>; symmetrically a single `new T` must not get an array deleter."""
+        args = [unver(a) for a in (args or ())]
+        if not args or not (isinstance(args[0], tuple) and args[0] and args[0][0] == 'new'):
+            return
+        ct = next((f_['ct'] for f_ in r['fields'] if f_['name'] == member), '')
+        if not (ct.startswith('std::shared_ptr<') or ct.startswith('std::unique_ptr<')):
+            return
+        inner = ct[ct.index('<') + 1:ct.rindex('>')].strip()
+        if ct.startswith('std::unique_ptr<') and ',' in inner:
+            findings.append(Finding('R-C11-1', 'deleter', 'the owner `%s` has a custom deleter type `%s`' % (member, ct), node, True))
+            return
+        is_array_new = len(args[0]) > 2 and args[0][2] is not None
+        dele = args[1] if len(args) > 1 else None
+        if dele is None:
+            array_delete = inner.endswith('[]')
+            dshow = 'the default deleter of %s (`delete%s p`)' % (ct, '[]' if array_delete else '')
+        elif isinstance(dele, tuple) and dele[0] == 'construct' and len(dele) == 2 and str(dele[1]).startswith('std::default_delete<'):
+            array_delete = str(dele[1]).rstrip('>').rstrip().endswith('[]')
+            dshow = '`%s`' % dele[1]
+        else:
+            findings.append(Finding('R-C11-1', 'deleter', 'the block is handed to `%s` with the deleter `%s`, which is not modelled' % (member, show(dele)), node, True))
+            return
+        self.ndeleter = getattr(self, 'ndeleter', 0) + 1
+        if is_array_new and not array_delete:
+            findings.append(Finding('R-C11-1', 'array-new-without-array-deleter',
+                                    'the owner member `%s` (%s) takes over a block allocated with `%s` and will release it with %s: an array obtained with '
+                                    'new[] must be released with delete[] (hand it over together with std::default_delete<%s[]>, as the constructors do) - '
+                                    'a scalar delete of an array is undefined behaviour (mismatched deallocation; for element types with destructors only '
+                                    'the first element is destroyed)' % (member, ct, show(args[0]), dshow, args[0][1]), node))
+        elif not is_array_new and array_delete:
+            findings.append(Finding('R-C11-1', 'scalar-new-with-array-deleter',
+                                    'the owner member `%s` (%s) takes over a single object allocated with `%s` and will release it with %s (delete[])'
+                                    % (member, ct, show(args[0]), dshow), node))
 
     # ---- provenance of a pointer expression
     def classify_ptr(self, p, X, tracked, owners, basefields):
@@ -443,6 +483,9 @@ class WrapperAnalysis:
                 if ev.kind == 'init':
                     if ev.how in own_names:
                         d = self.describe(ev.value)
+                        v_ = unver(ev.value)
+                        if isinstance(v_, tuple) and v_ and v_[0] == 'construct':
+                            self.check_deleter(r, ev.how, v_[2:], ev.node, findings)
                         src[(this, ev.how)] = d
                         if d != ('empty',):
                             if st[this] != 'A' or d[0] != 'copyof':
@@ -597,8 +640,12 @@ class WrapperAnalysis:
                         if whole and how in ('operator=', '=') and (ev.value is not None):
                             v = ev.value[0] if ev.kind == 'mutate' and ev.value else ev.value
                             src[(X, M)] = self.describe(v)
+                            v_ = unver(v)
+                            if isinstance(v_, tuple) and v_ and v_[0] == 'construct':
+                                self.check_deleter(r, M, v_[2:], ev.node, findings)
                         elif whole and how == 'reset' and ev.value:
                             v0 = unver(ev.value[0])
+                            self.check_deleter(r, M, ev.value, ev.node, findings)
                             src[(X, M)] = ('new', v0[2], v0[1]) if isinstance(v0, tuple) and v0[0] == 'new' else ('unknown', v0)
                         elif whole and how == 'assign' and ev.value and len(ev.value) == 2:
                             src[(X, M)] = self.describe(('construct', 'std::vector<>') + tuple(ev.value))
@@ -836,7 +883,70 @@ class WrapperAnalysis:
                                         '(no allocation seen before this call)' % (show(nu), M), ev.node, True))
                 return
         elif ok in ('sp_wrapper', 'wrapper'):
-            pass
+            # a window into another wrapper: the caller's size, or that size clipped to the elements that follow the offset
+            holder = ('field', X, M) if ok == 'wrapper' else ('deref', ('field', X, M))
+            SZ = self.se._subst(N, {('this',): holder})
+            offs = [t for t in (pu[1:] if isinstance(pu, tuple) and pu[0] == 'add' else ()) if not (isinstance(t, tuple) and t[0] == 'field' and t[2] == P)]
+            off = mk_comm('add', offs) if offs else ('const', 0)
+            zero = {a_ for a_ in (SZ, off) if path.cond_of(mk_eq(('const', 0), a_)) is True}
+
+            def lin(x):
+                """x as a linear form {atom: coefficient, 1: constant} over add / sub / constants, or None"""
+                if x in zero:
+                    return {}
+                if isinstance(x, tuple) and x and x[0] == 'const' and isinstance(x[1], int):
+                    return {1: x[1]} if x[1] else {}
+                if isinstance(x, tuple) and x and x[0] in ('add', 'sub'):
+                    out = {}
+                    for i_, y in enumerate(x[1:]):
+                        ly = lin(y)
+                        if ly is None:
+                            return None
+                        sg = -1 if (x[0] == 'sub' and i_ > 0) else 1
+                        for k_, v_ in ly.items():
+                            out[k_] = out.get(k_, 0) + sg * v_
+                    return {k_: v_ for k_, v_ in out.items() if v_}
+                if isinstance(x, tuple) and x and x[0] == 'cast':
+                    return lin(x[2])
+                if isinstance(x, tuple) and x and x[0] in ('param', 'field'):
+                    return {x: 1}
+                return None
+
+            room = lin(('sub', SZ, off))
+            bound = None
+            if isinstance(nu, tuple) and nu[0] == 'call' and last(str(nu[1])) == 'min' and len(nu) == 5:
+                a_, b_ = nu[3], nu[4]
+                if isinstance(b_, tuple) and b_[0] == 'param' and not (isinstance(a_, tuple) and a_[0] == 'param'):
+                    a_, b_ = b_, a_
+                if isinstance(a_, tuple) and a_[0] == 'param':
+                    bound = b_
+            elif isinstance(nu, tuple) and nu[0] in ('add', 'sub', 'field') and contains(nu, SZ):
+                bound = nu
+            if isinstance(nu, tuple) and (nu[0] == 'param' or nu == ('const', 0)):
+                pass
+            elif bound is not None and room is not None and lin(bound) is not None:
+                lb = lin(bound)
+                diff = {k_: lb.get(k_, 0) - room.get(k_, 0) for k_ in set(lb) | set(room)}
+                diff = {k_: v_ for k_, v_ in diff.items() if v_}
+                if not diff:
+                    pass
+                elif set(diff) == {1}:
+                    k_ = diff[1]
+                    findings.append(Finding('R-C11-6', 'view-clamped-short' if k_ < 0 else 'view-exceeds-owner',
+                                            'the view into `%s` starts at offset `%s` and its size is %s `%s`, but `%s` elements follow that offset: '
+                                            '%s' % (M, show(off), 'limited to' if bound is not nu else 'set to', show(bound), show(('sub', SZ, off)),
+                                                    ('a request that reaches the last element of the underlying array is cut by %d (the last valid index was '
+                                                     'used where the element count is needed)' % -k_) if k_ < 0 else
+                                                    ('the view can extend %d element(s) past the end of the underlying array' % k_)), ev.node))
+                    return
+                else:
+                    findings.append(Finding('R-C11-6', 'view-size', 'the size `%s` of the view into `%s` is not recognised as the caller\'s size or its clip to '
+                                            'the `%s` elements that follow the offset' % (show(nu), M, show(('sub', SZ, off))), ev.node, True))
+                    return
+            else:
+                findings.append(Finding('R-C11-6', 'view-size', 'the size `%s` of the view into `%s` is not recognised as the caller\'s size or its clip to '
+                                        'the `%s` elements that follow the offset' % (show(nu), M, show(('sub', SZ, off))), ev.node, True))
+                return
         else:
             findings.append(Finding('R-C11-1', 'provenance', 'view derives from member `%s` whose ownership kind is not recognised' % M, ev.node, True))
             return
@@ -953,6 +1063,41 @@ def check_wrappers(ctx, tu, tag=''):
         if r is None or r['type'] not in m.wrappers:
             continue
         by_rec.setdefault(r['type'], []).append(f)
+    # what a copy of a wrapper with *user-provided* copy operations designates: the source's block again (the owner member is copied:
+    # shared_ptr semantics), or a block of its own (deep copy)?  True / False / None (not decided), per record type
+    m.copy_sharing = {}
+    by_tmpl = {}
+    for rtype, fs in sorted(by_rec.items()):
+        r = m.wrappers[rtype]
+        if not any(r.get(k, {}).get('user') for k in ('copy_ctor', 'copy_assign')):
+            continue
+        shareable = [n_ for n_, k_, i_ in m.owners(r) if k_ in ('sp_alloc', 'sp_wrapper', 'wrapper')]
+        if not shareable:
+            continue
+        verdicts = []
+        for f in fs:
+            if not (f.get('ctor') == 'copy' or f.get('assign') == 'copy') or f.get('implicit') or f.get('defaulted'):
+                continue
+            outs, _fnd = wa.analyse(f, r)
+            p0_ = ('param', 0, (f.get('params') or [{}])[0].get('name') or '')
+            for o in outs:
+                for M_ in shareable:
+                    d_ = o['src'].get((('this',), M_))
+                    if d_ is None:
+                        verdicts.append(None)
+                    elif d_[0] == 'copyof' and unver(d_[1]) == ('field', p0_, M_):
+                        verdicts.append(True)
+                    elif d_[0] in ('new', 'copy', 'range', 'sized', 'empty'):
+                        verdicts.append(False)
+                    else:
+                        verdicts.append(None)
+        if verdicts:
+            v_ = False if any(x is False for x in verdicts) else (None if any(x is None for x in verdicts) else True)
+            m.copy_sharing[rtype] = v_
+            by_tmpl.setdefault(r['q'], set()).add(v_)
+    for rtype, r in m.wrappers.items():      # an instantiation whose copy operations are not odr-used follows its siblings
+        if rtype not in m.copy_sharing and any(r.get(k, {}).get('user') for k in ('copy_ctor', 'copy_assign')) and len(by_tmpl.get(r['q'], ())) == 1:
+            m.copy_sharing[rtype] = next(iter(by_tmpl[r['q']]))
     for rtype, fs in sorted(by_rec.items()):
         r = m.wrappers[rtype]
         owners = m.owners(r)
@@ -1094,10 +1239,20 @@ def check_wrappers(ctx, tu, tag=''):
                if r.get(k, {}).get('has') and not r[k].get('user') and not r[k].get('deleted')]
         unique = [(n, k) for n, k, i in owners if k in ('vec', 'up_alloc')] + \
                  [(n, k) for n, k, i in owners if k == 'wrapper' and not (m.wrappers.get(i) and m.shares_storage(m.wrappers[i]))]
-        if unique and gen:
+        unsure = [(n, i) for n, k, i in owners if k == 'wrapper' and m.wrappers.get(i) is not None
+                  and any(m.wrappers[i].get(k_, {}).get('user') for k_ in ('copy_ctor', 'copy_assign')) and m.copy_sharing.get(i) is None]
+        if unsure and gen and not unique:
+            ctx.undecided(R3, inst, 'member `%s` is a by-value %s with user-provided copy operations, and whether its copy shares the source\'s block or '
+                          'gets one of its own could not be decided' % (unsure[0][0], short(unsure[0][1])), file)
+        elif unique and gen:
+            deep = [(n, i) for n, k, i in owners if k == 'wrapper' and m.copy_sharing.get(i) is False]
+            extra = ''
+            if deep and deep[0][0] == unique[0][0]:
+                extra = (' - the member\'s type %s has user-provided copy operations that give every copy a block of its own (deep copy), so the '
+                         'copied member no longer shares the allocation the copied pointer refers to' % short(deep[0][1]))
             ctx.violation(R3, inst, '%s has compiler-generated %s: they copy the base\'s raw pointer member-wise, so the copy\'s view points into the '
-                          'storage of the *source\'s* member `%s` (dangling once the source is destroyed, resized or reassigned)'
-                          % (rname, ', '.join(x.replace('_', ' ') for x in gen), unique[0][0]), file,
+                          'storage of the *source\'s* member `%s` (dangling once the source is destroyed, resized or reassigned)%s'
+                          % (rname, ', '.join(x.replace('_', ' ') for x in gen), unique[0][0], extra), file,
                           key='%s|%s|%s|implicit-copy' % (R3, file, rname),
                           path=['%s::%s is a by-value %s' % (rname, unique[0][0], unique[0][1]), 'setPtr sources: %s' % sorted(wa.prov.get(r['q'], ()))])
         else:
